@@ -97,9 +97,9 @@ func c19BgScenarios() []dbScenario {
 	return []dbScenario{
 		{name: "B1-close-vs-background-compaction", mem: 1 << 20, thresh: 1, bg: true, quickBound: 1, thoroughBound: 3,
 			setup: two, threads: [][]cop{{{"tick", "", ""}}, {{"close", "", ""}}}},
-		{name: "B2-close-vs-compaction-and-flush", mem: 50, thresh: 1, bg: true, quickBound: 1, thoroughBound: 3,
+		{name: "B2-close-vs-compaction-and-flush", mem: 50, thresh: 1, bg: true, quickBound: 1, thoroughBound: 2,
 			setup: two, threads: [][]cop{{{"tick", "", ""}}, {{"put", "c", bigVal}, {"close", "", ""}}}},
-		{name: "B3-close-vs-two-ticks", mem: 1 << 20, thresh: 1, bg: true, quickBound: 1, thoroughBound: 3,
+		{name: "B3-close-vs-two-ticks", mem: 1 << 20, thresh: 1, bg: true, quickBound: 1, thoroughBound: 2,
 			setup: two, threads: [][]cop{{{"tick", "", ""}, {"tick", "", ""}}, {{"close", "", ""}}}},
 		{name: "B4-compaction-then-close-with-three-tables", mem: 1 << 20, thresh: 1, bg: true, quickBound: 1, thoroughBound: 2,
 			setup: append(append([]cop{}, two...), cop{"del", "a", ""}, cop{"rot", "", ""}), threads: [][]cop{{{"tick", "", ""}}, {{"get", "a", ""}, {"close", "", ""}}}},
